@@ -475,8 +475,20 @@ class Inliner:
         bind = []
         if s.items[0].optional_vars is not None:
             val = ystmt.value.value or ast.Constant(None)
-            bind = [ast.copy_location(ast.Assign(
-                [s.items[0].optional_vars], val), s)]
+            ov = s.items[0].optional_vars
+            if isinstance(ov, (ast.Tuple, ast.List)) and isinstance(
+                    val, ast.Tuple) and len(ov.elts) == len(
+                        val.elts) and all(isinstance(t_, ast.Name)
+                                          for t_ in ov.elts) and not (
+                    {t_.id for t_ in ov.elts} & {
+                        n_.id for n_ in ast.walk(val)
+                        if isinstance(n_, ast.Name)}):
+                # `as (a, b)` with `yield x, y`: element by element
+                bind = [ast.copy_location(ast.Assign(
+                    [ast.Name(t_.id, ast.Store())], v_), s)
+                    for t_, v_ in zip(ov.elts, val.elts)]
+            else:
+                bind = [ast.copy_location(ast.Assign([ov], val), s)]
         inner = self._block(list(s.body), stack, depth)
         if form == "try":
             mid = [ast.copy_location(ast.Try(
